@@ -20,7 +20,10 @@ VBin(ev) ==
   ELSE IF ~ValidBin(b) THEN "bin-id-valid"
   ELSE IF s < 0 \/ s >= e THEN "ok"                      \* empty / degenerate interval: any standard bin
   ELSE IF ~(Lo(b) <= s /\ e <= Hi(b)) THEN "bin-contains"
-  ELSE IF b # SemBin(F, N, L, s, e) THEN "bin-smallest"
+  \* named deviation (keyed known finding bins:end-on-bin-boundary): the code shifts the exclusive end as it is
+  \* (Bins!AlgoBin, StopNotDecremented); only the bin THAT arithmetic yields is filed under the finding
+  ELSE IF b # SemBin(F, N, L, s, e) THEN
+       (IF b = AlgoBin(F, N, L, ev[2], ev[3], ev[4]) THEN "bin-smallest" ELSE "bin-is-neither-the-smallest-nor-the-known-deviation")
   ELSE "ok"
 
 (* ["set", start, stop, off, sortedList] : must contain bin 1 and every standard bin whose range meets the query *)
